@@ -412,7 +412,7 @@ def search(ctx, evaluate, corr_bad):
 class DocGen:
     """balanced documents mixing groups of every kind with local/global definitions, \\let, \\catcode;
     the expected visible text is computed by the abstract scoping semantics on the generator's own AST."""
-    KINDS = ['brace', 'begingroup', 'quote', 'center', 'math', 'arg', 'tabular', 'itemize']
+    KINDS = ['brace', 'begingroup', 'quote', 'center', 'math', 'arg', 'tabular', 'itemize', 'ncenv', 'newenv', 'letend', 'unkenv']
 
     def __init__(self, rng):
         self.rng = rng
@@ -487,7 +487,7 @@ class DocGen:
                 self.plain(inmath)
 
     def group(self, depth, inmath, intab):
-        kinds = ['brace', 'begingroup', 'arg'] if inmath else self.KINDS
+        kinds = ['brace', 'begingroup', 'arg', 'unkenv', 'ncenv', 'newenv'] if inmath else self.KINDS
         if intab:
             kinds = [k for k in kinds if k != 'tabular']
         kind = self.rng.choice(kinds)
@@ -501,6 +501,11 @@ class DocGen:
             self.src.append('\\begingroup '); scoped(lambda: self.body(depth, inmath, intab)); self.src.append('\\endgroup ')
         elif kind in ('quote', 'center'):
             self.src.append('\\begin{%s}' % kind); scoped(lambda: self.body(depth, inmath, intab)); self.src.append('\\end{%s}' % kind)
+        elif kind in ('ncenv', 'newenv', 'letend', 'unkenv'):
+            # \begin{x}..\end{x} is a group whatever x is: a \newcommand used as an environment (no \endx), a \newenvironment,
+            # one whose end part was \let to \relax, and an environment plasTeX does not know at all
+            name = {'ncenv': 'ncq', 'newenv': 'nvq', 'letend': 'nlq', 'unkenv': self.rng.choice(['cases', 'zzunk', 'aligned'])}[kind]
+            self.src.append('\\begin{%s}' % name); scoped(lambda: self.body(depth, inmath, intab)); self.src.append('\\end{%s}' % name)
         elif kind == 'math':
             def mbody():
                 self.emit_text()          # never an empty `$$` (that would open display math)
@@ -532,7 +537,7 @@ class DocGen:
             self.src.append('\\end{tabular}')
 
     def make(self):
-        pre = '\\newcounter{cq}\\newif\\ifzz '
+        pre = '\\newcounter{cq}\\newif\\ifzz \\newcommand\\ncq{}\\newenvironment{nvq}{}{}\\newenvironment{nlq}{}{}\\let\\endnlq\\relax '
         for k in (1, 2, 3):
             w = self.word()
             pre += '\\gdef\\p%s{%s}' % ('abc'[k - 1], w)
